@@ -182,7 +182,11 @@ func runSelfTest(prop, repo string, r *Run) map[string]interface{} {
 		list = append(list, e)
 		switch rs.status {
 		case "missed":
-			r.Failures = append(r.Failures, fmt.Sprintf("SELFTEST checker insensitive: breaking variant %s not detected (%s)", rs.m.Name, rs.detail))
+			if rs.m.KnownLimitation {
+				fmt.Printf("SELFTEST-KNOWN-LIMITATION %s: this seeded change is NOT detected by the rules of %s (%s)\n", rs.m.Name, prop, rs.detail)
+			} else {
+				r.Failures = append(r.Failures, fmt.Sprintf("SELFTEST checker insensitive: breaking variant %s not detected (%s)", rs.m.Name, rs.detail))
+			}
 		case "noisy":
 			if rs.m.KnownLimitation {
 				fmt.Printf("SELFTEST-KNOWN-LIMITATION %s: the rules do not see through this refactoring (%s)\n", rs.m.Name, rs.detail)
